@@ -106,6 +106,9 @@ func runC03(c *core.Ctx) {
 	}
 	c.Min("C03-R2", nPost, 5, "post-consensus signing sites")
 
+	// "decided" means certified by committee members: the helper behind ValidateDecided
+	checkVerifyByOperators(c, "C03-R2")
+
 	// ---------------- R3: provenance of the signed object and slot
 	for t, dom := range postConsensusSites {
 		f := fn(c, "C03-R3", runnerMethod(t, "ProcessConsensus"))
